@@ -134,7 +134,41 @@ func stepOut(out string, st *envh.St) string {
 	return fmt.Sprintf("%s|%d", out, len(st.Env.Signatures))
 }
 
+// reshape changes how an empty list is REPRESENTED (nil, or empty and non-nil as left behind by
+// filtering in place or by JSON `[]`) before an operation runs: the abstract state is the same, so
+// every outcome must be the same.
+func reshape(st *envh.St, n int) {
+	e := st.Env
+	if e == nil || e.Head == nil {
+		return
+	}
+	switch n % 3 {
+	case 0:
+		if len(e.Head.Stamps) == 0 {
+			e.Head.Stamps = []*head.Stamp{}
+		}
+		if len(e.Head.Links) == 0 {
+			e.Head.Links = []*head.Link{}
+		}
+		if len(e.Signatures) == 0 {
+			e.Signatures = []*dsig.Signature{}
+		}
+	case 1:
+		if len(e.Head.Stamps) == 0 {
+			e.Head.Stamps = nil
+		}
+		if len(e.Head.Links) == 0 {
+			e.Head.Links = nil
+		}
+		if len(e.Signatures) == 0 {
+			e.Signatures = nil
+		}
+	}
+}
+
 func (r *runner) do(st *envh.St, a envh.Act) (out string) {
+	// a function of the state and the operation only, so that a replay reshapes the same way
+	reshape(st, len(a.K)+a.N+a.Base+len(a.A)+len(st.Env.Signatures)+st.Cur)
 	if p := core.Protect(func() { out = st.Do(a) }); p != "" {
 		out = "panic:" + p
 	}
